@@ -398,6 +398,70 @@ def table_differences(report_path=None):
     return rows, rep
 
 
+def expected_lists():
+    """`expectedUnrecognised` / `expectedApprox` of KmipModel/Props/C01Gen.lean (read from the source: the driver
+    cannot run when the module does not build)"""
+    import re
+    path = os.path.join(os.path.dirname(os.path.abspath(__file__)), "..", "..", "lean", "KmipModel", "Props", "C01Gen.lean")
+    text = open(path).read()
+    out = {}
+    for name in ("expectedUnrecognised", "expectedApprox"):
+        m = re.search(r"def %s : List String := \[(.*?)\]" % name, text, re.S)
+        out[name] = re.findall(r'"([^"]+)"', m.group(1)) if m else None
+    return out
+
+
+def report_unclassified(ctx, rep):
+    """a class that dropped out of the regenerated tables (gen_unrecognised_expected) or is newly approximated
+    (gen_approx_expected): say which construct at which line stopped the translator, so that the replay file of a
+    no-failing-input-found report tells what to teach harness/gen_schemas.py (or what changed in /repo)"""
+    exp = expected_lists()
+    rows = []
+    if exp.get("expectedUnrecognised") is not None:
+        now = {u["name"]: u for u in rep.get("unrecognised_classes", [])}
+        for name in sorted(set(now) - set(exp["expectedUnrecognised"])):
+            u = now[name]
+            excerpt = []
+            try:
+                src_lines = open(os.path.join(rep["repo"], u["file"])).read().split("\n")
+                ln = u.get("line") or 1
+                excerpt = ["%d: %s" % (k + 1, src_lines[k]) for k in range(max(0, ln - 3), min(len(src_lines), ln + 2))]
+            except Exception:
+                pass
+            rows.append(name)
+            ctx.report("correspondence:schema-gen-class-not-classified:%s" % name,
+                       "%s dropped out of the regenerated schema tables (gen_unrecognised_expected): the translator "
+                       "stopped at %s:%s: %s" % (name, u["file"], u.get("line"), u["reason"]),
+                       {"broken": "gen_unrecognised_expected (KmipModel/Props/C01Gen.lean): harness/gen_schemas.py no "
+                                  "longer classifies read()/write() of this class; the monitors found no failing input "
+                                  "on it",
+                        "class": name, "file": u["file"], "line": u.get("line"), "construct": u["reason"],
+                        "source": excerpt,
+                        "what_to_do": "if the construct is a behaviour-preserving rewrite, teach it to the Normaliser / "
+                                      "Reader / Writer of harness/gen_schemas.py and add it to "
+                                      "notes/selftest_schema_translator.py; if read()/write() really changed, the class "
+                                      "must be looked at by hand before it is added to expectedUnrecognised"},
+                       no_input=True)
+        for name in sorted(set(exp["expectedUnrecognised"]) - set(now)):
+            ctx.report("correspondence:schema-gen-class-now-classified:%s" % name,
+                       "%s is listed in expectedUnrecognised and the translator now classifies it: remove it from the "
+                       "list (and from handDiffers if it is there)" % name,
+                       {"broken": "gen_unrecognised_expected: stale entry", "class": name}, no_input=True)
+    if exp.get("expectedApprox") is not None:
+        now = {c["name"]: c for c in rep["classes"] if c["approx"]}
+        for name in sorted(set(now) - set(exp["expectedApprox"])):
+            ctx.report("correspondence:schema-gen-new-approximation:%s" % name,
+                       "%s is now translated with an approximation (gen_approx_expected): %s (%s)"
+                       % (name, "; ".join(now[name]["approx"]), now[name]["file"]),
+                       {"broken": "gen_approx_expected", "class": name, "file": now[name]["file"],
+                        "approximations": now[name]["approx"]}, no_input=True)
+        for name in sorted(set(exp["expectedApprox"]) - set(now) - {u["name"] for u in rep.get("unrecognised_classes", [])}):
+            ctx.report("correspondence:schema-gen-approximation-gone:%s" % name,
+                       "%s is listed in expectedApprox and is now translated exactly: remove it from the list" % name,
+                       {"broken": "gen_approx_expected: stale entry", "class": name}, no_input=True)
+    return rows
+
+
 def search(ctx, struct_run, rng, max_examples=40):
     """the implementation-only monitors on the classes whose regenerated read and write tables differ (all of them if
     the difference cannot be read off): every example under every version must survive decode(encode(x)) and
@@ -448,6 +512,8 @@ def search(ctx, struct_run, rng, max_examples=40):
         n += 1
         if ok:
             ctx.report(FINDING_SIGNATURES[key], desc, replay_)
+    dropped = report_unclassified(ctx, rep)
     ctx.coverage["schema_gen_search"] = {"table_differences": [{"class": a, "fields": b} for a, b in rows][:20],
-                                         "classes_searched": suspects, "monitor_evaluations": n}
+                                         "classes_searched": suspects, "monitor_evaluations": n,
+                                         "classes_not_classified": dropped}
     return n
